@@ -1,7 +1,7 @@
 #!/bin/bash
-# usage: tools/run_all.sh [quick|thorough]  — runs every claimed check once on the current /repo tree
+# usage: tools/run_all.sh [quick|thorough]  — runs every claimed check once on the current repo tree (VERIF_REPO or /repo)
 T=${1:-quick}
-cd /verif
+cd "$(dirname "$0")/.."
 for p in $(python3 -c "import json; print(' '.join(c['property_id'] for c in json.load(open('MANIFEST.json'))['checks']))"); do
-  timeout 3000 ./check $p --tier $T 2>&1 | grep -v "^KNOWN-FINDING" | tail -1 | cut -c1-220
+  timeout 5000 ./check $p --tier $T 2>&1 | grep -v "^KNOWN-FINDING" | tail -2 | cut -c1-260
 done
